@@ -334,7 +334,10 @@ func ext۰fmt۰Fprintf(fr *frame, args []value) value {
 		panic(runtimePanic(fr.i, "invalid memory address or nil pointer dereference"))
 	}
 	if isOpaque(s) {
-		panic(abortPath{"inconclusive", "fmt.Fprintf of opaque text: " + s.(*SymStr).Why})
+		// the text is not computed by the model: a marker is written instead
+		// (harnesses that compare dumped text avoid the opaque cases)
+		fr.i.ps.events = append(fr.i.ps.events, "opaque-write: "+s.(*SymStr).Why)
+		s = "<opaque>"
 	}
 	b := append([]value{}, strBytes(s)...)
 	ms := fr.i.prog.MethodSets.MethodSet(w.t)
